@@ -4,22 +4,27 @@ encoding choice the producer made.
 
 What is proved here (all about the models Osmium/Model/{OplFmt,XmlFmt}.lean, which are tied to the
 real readers on every run):
-* OPL: the full decode theorem for the WRITER's choice vector and every metadata subset is
-  `C01Text.opl_roundtrip`; here the free choices of the specification renderer `OplSpec.render`
-  that are independent of the attribute values are discharged for ALL lines: any non-empty run of
-  spaces / tabs separates attributes like a single space, empty lines and comment lines decode to
-  nothing, missing attributes decode to their defaults, the type filter drops exactly the
-  filtered types.
-* XML: order irrelevance of the two attributes of `<tag>`; the visible flag of an object is
-  decided by the change section it stands in.
-NOT proved (named `_partial` where a partial statement exists; covered only by the differential
-check of tools/props/c02_text.py, which decodes spec-rendered files for random choice vectors with
-the real readers and the model readers): `opl_decode_spec` for arbitrary attribute permutations /
-escape styles / padded coordinates / CR and CRLF endings, `xml_decode_spec` (all of it), general
-attribute-order irrelevance for `init_object`.
+* OPL: `opl_decode_spec` — the reader decodes `OplSpec.render ch objs` to the objects for EVERY
+  choice vector `ch` (attribute permutations, separators, omitted defaults, the three escape styles,
+  padded coordinates, LF / CR / CRLF endings, empty and comment lines, missing final ending), with the
+  line-level `opl_decode_spec_line`; plus the value-independent facts for ALL lines: any non-empty
+  run of spaces / tabs separates attributes like a single space, empty lines and comment lines
+  decode to nothing, missing attributes decode to their defaults, the type filter drops exactly
+  the filtered types.  (The decode theorem for the WRITER's choice vector and every metadata subset
+  is `C01Text.opl_roundtrip` / `opl_file_roundtrip`.)
+* XML: `xml_decode_spec` — tokenizer + reader decode `XmlSpec.render ch h objs` to header and objects
+  for EVERY choice vector; split into the reader half `xml_decode_spec_events` (any parser that
+  reports the XML 1.0 events of the document: attribute order, optional metadata, visible flags,
+  child order, change sections, arbitrary white-space events) and the lexical half
+  `xml_tokenize_spec` (quotes, escape styles, white space, empty-element form, declaration).  The
+  two small facts about `<tag>` and change sections are kept as illustrations.
+Changesets inside change files are outside the domain (the reader rejects them there).
 -/
 import Osmium.Props.C01Text
 import Osmium.Model.XmlFmt
+import Osmium.Lemmas.OplSpecLine5
+import Osmium.Lemmas.XmlSpecRead6
+import Osmium.Lemmas.XmlSpecTok4
 
 namespace Osmium.C02Text
 open Osmium.Osm Osmium.TextFmt Osmium.Conv Osmium.OplFmt
@@ -104,20 +109,129 @@ theorem opl_type_filter (s : Bytes) :
     parseLine { node := false } (0x77 :: s) = parseLine {} (0x77 :: s) := by
   simp [parseLine]
 
-/-- the decode theorem for the writer's own point of the choice space (every metadata subset,
-    locations on ways on or off) — `C01Text.opl_roundtrip` — restated for C02.
-    MISSING for the full `opl_decode_spec`: attribute permutations, the two "escape everything"
-    styles, padded coordinates, CR / CRLF endings (only sampled by the differential check). -/
-theorem opl_decode_spec_partial (md : MetaOpts) (low : Bool) (obj : Object) (h : C01Text.InDomain obj) :
-    ∃ line, writeObject { md := md, locationsOnWays := low } obj = .ok (line ++ [0x0a]) ∧
-      parseLine {} line = .ok (some (project { md := md, locationsOnWays := low } obj)) :=
-  C01Text.opl_roundtrip _ obj h
+theorem InDomain.specOk {obj : Object} (h : C01Text.InDomain obj) : SpecObjOK obj := by
+  cases obj with
+  | node m l => exact ⟨h.1.ok, h.2⟩
+  | way m ns => exact ⟨h.1.ok, fun n hn => h.2 n hn⟩
+  | relation m ms => exact ⟨h.1.ok, fun x hx => h.2 x hx⟩
+  | changeset id ca cl nc ncm uid user bl tr tags cs =>
+    obtain ⟨h1, h2, h3, h4, h5, h6, h7, h8, h9, h10, h11⟩ := h
+    exact ⟨by omega, h2, h3, by omega, by omega, h6, h7, h8, h9, h10, fun t ht => h11 t ht⟩
+
+/-- what the reader returns for a spec-rendered object: everything (the specification renderer
+    writes every attribute, or omits it exactly when it has its default value) except the changeset
+    discussion, which OPL cannot carry -/
+abbrev specProject : Object → Object := project { locationsOnWays := true }
+
+/-- **OPL decode, one line, the full choice space.**  For every object of the domain and EVERY
+    choice vector of the specification renderer `OplSpec.renderLine` — the attributes in any order
+    (`order`, a selection permutation), each preceded by a space, a tab, two spaces or space + tab
+    (`seps`), attributes with default values written or omitted (`omitDefaults`), strings escaped as
+    the writer does or with EVERY character as `%hex%` in lower case with minimal digits or in upper
+    case padded to six digits (`escapeMode`), coordinates with trailing zeros up to seven decimals
+    (`padCoords`) — `opl_parse_line` returns exactly the object (without the discussion of a
+    changeset).  The rendered line contains no LF / CR / NUL. -/
+theorem opl_decode_spec_line (ch : OplSpec.Choices) (obj : Object) (h : C01Text.InDomain obj) :
+    parseLine {} (OplSpec.renderLine ch obj) = .ok (some (specProject obj)) ∧
+      ∀ b ∈ OplSpec.renderLine ch obj, b ≠ 0x0a ∧ b ≠ 0x0d ∧ b ≠ 0 :=
+  ⟨(renderLine_parse ch obj (InDomain.specOk h)).1, (renderLine_parse ch obj (InDomain.specOk h)).2.1⟩
+
+/-- **OPL decode, whole files, the full choice space** (`opl_decode_spec`).  For every list of
+    objects of the domain and EVERY choice vector of `OplSpec.render`: besides the per-line choices
+    of `opl_decode_spec_line`, each line ends with LF, CR or CRLF (`endings`), is preceded by
+    nothing, an empty line, a comment line or both (`junk`), and the last line may lack its ending
+    (`noFinalEnding`) — the reader (`OPLParser::run`: `Chunks.specLines`, C-string cut, then
+    `opl_parse_line` per line) returns exactly the objects, in order. -/
+theorem opl_decode_spec (ch : OplSpec.Choices) (objs : List Object) (h : ∀ obj ∈ objs, C01Text.InDomain obj) :
+    parseFile {} (OplSpec.render ch objs) = .ok (objs.map specProject) :=
+  opl_render_file ch objs specProject fun obj ho => renderLine_parse ch obj (InDomain.specOk (h obj ho))
+
+/-- the producer's choices are invisible to the reader -/
+theorem opl_choices_irrelevant (ch₁ ch₂ : OplSpec.Choices) (objs : List Object) (h : ∀ obj ∈ objs, C01Text.InDomain obj) :
+    parseFile {} (OplSpec.render ch₁ objs) = parseFile {} (OplSpec.render ch₂ objs) := by
+  rw [opl_decode_spec ch₁ objs h, opl_decode_spec ch₂ objs h]
+
+/-- non-vacuity / sample point: a choice vector far from the writer's (reversed-ish attribute order,
+    tabs, omitted defaults, upper-case padded escapes, padded coordinates, CR and CRLF endings, junk
+    lines, no final ending) on the four-object sample of `C01Text` -/
+example : (fun ch : OplSpec.Choices => ch.escapeMode = 2 ∧ ch.padCoords = true ∧ ch.noFinalEnding = true)
+    { order := [6, 5, 4, 3, 2, 1, 0, 1], seps := [1, 3, 2], omitDefaults := true, escapeMode := 2, padCoords := true,
+      endings := [1, 2, 0], junk := [3, 2, 1], noFinalEnding := true } := by decide
 
 /-! ## XML -/
 
+open Osmium.XmlFmt Osmium.XmlFmt.XmlSpec in
+/-- **XML decode, reader half, the full choice space.**  Let a parser report, for the document
+    `XmlSpec.render ch h objs`, the events XML 1.0 prescribes (`renderEvs`: start tags with the
+    attribute values DECODED, in the order the producer chose; end tags; `<a/>` = `<a></a>`; white
+    space between elements as character data, split and normalised in any way — `wsE` is arbitrary;
+    the text of a comment as character data).  Then for every header and all objects of the XML
+    domain (changesets with discussions included, outside change files) and EVERY choice vector —
+    attributes of every element in any order (`attrOrder`), metadata attributes with default values
+    written or omitted (`omitDefaults`), explicit `visible` attributes or none (`visibleAttr`), tags
+    before or after `<nd>` / `<member>` children (`tagsFirst`), plain file or change file with as
+    many `<create>/<modify>/<delete>` sections as needed (`osc`) — the reader returns the header
+    and exactly the objects (`project (specOpts ch)`: what the file carries). -/
+theorem xml_decode_spec_events (expat : Bytes → Option (List Ev)) (ch : Choices) (h : Header) (objs : List Object)
+    (hh : C01Text.XHeaderDom h) (hall : ∀ obj ∈ objs, C01Text.XmlInDomainAll obj)
+    (hosc : ch.osc = true → ∀ obj ∈ objs, C01Text.XmlInDomain obj)
+    (hc : ∃ wsE, WsOnly wsE ∧ expat (render ch h objs) = some (renderEvs ch wsE h objs)) :
+    readFile expat {} (render ch h objs) =
+      .ok (projectHeader (specOpts ch) h, objs.map (XmlFmt.project (specOpts ch))) := by
+  obtain ⟨wsE, hws, he⟩ := hc
+  have hcs : ch.osc = true → ∀ obj ∈ objs, isChangeset obj = false := by
+    intro ho obj hob
+    have := hosc ho obj hob
+    cases obj <;> first | rfl | exact absurd this (by simp [C01Text.XmlInDomain])
+  simp only [readFile, he]
+  exact renderEvs_read ch wsE hws h objs ⟨hh.1, fun b hb => hh.2 b hb⟩ (fun obj ho => (hall obj ho).ok) hcs
+
+open Osmium.XmlFmt Osmium.XmlFmt.XmlSpec in
+/-- **XML decode, lexical half**: the model's XML tokenizer (the stand-in for expat on
+    spec-rendered documents, compared with the real reader on every run) reports exactly these
+    events for EVERY choice vector: either quote per attribute (`quotes`), the four escape styles —
+    the writer's entities, the minimal set XML demands, decimal or upper-case hexadecimal character
+    references for everything but [A-Za-z0-9] (`escMode`) —, LF + spaces / nothing / CRLF + tabs
+    between elements (`wsMode`), `<a/>` or `<a></a>` (`expandEmpty`), ` = ` or `=` (`eqSpaces`), the
+    XML declaration in either quote style or absent (`declMode`). -/
+theorem xml_tokenize_spec (ch : Choices) (h : Header) (objs : List Object) (hh : C01Text.XHeaderDom h)
+    (hall : ∀ obj ∈ objs, C01Text.XmlInDomainAll obj) :
+    tokenize (render ch h objs) = some (renderEvs ch (wsOf ch) h objs) ∧ WsOnly (wsOf ch) := by
+  refine ⟨tokenize_render ch h objs ⟨hh.1, fun b hb => hh.2 b hb⟩ (fun obj ho => (hall obj ho).ok), ?_⟩
+  intro n e he
+  unfold wsOf at he
+  split at he
+  · simp at he; exact ⟨_, he⟩
+  · split at he
+    · simp at he
+    · simp at he; exact ⟨_, he⟩
+
+open Osmium.XmlFmt Osmium.XmlFmt.XmlSpec in
+/-- **XML decode, the full choice space of `XmlSpec.render`** (`xml_decode_spec`): attribute order,
+    quote style, entity vs character reference, white space, empty-element form, declaration,
+    optional metadata, explicit visible flags, child order, change sections — whichever legal
+    choice the producer made, tokenizer + reader return the header and exactly the objects. -/
+theorem xml_decode_spec (ch : Choices) (h : Header) (objs : List Object) (hh : C01Text.XHeaderDom h)
+    (hall : ∀ obj ∈ objs, C01Text.XmlInDomainAll obj) (hosc : ch.osc = true → ∀ obj ∈ objs, C01Text.XmlInDomain obj) :
+    readFile tokenize {} (render ch h objs) =
+      .ok (projectHeader (specOpts ch) h, objs.map (XmlFmt.project (specOpts ch))) :=
+  xml_decode_spec_events tokenize ch h objs hh hall hosc
+    ⟨wsOf ch, (xml_tokenize_spec ch h objs hh hall).2, (xml_tokenize_spec ch h objs hh hall).1⟩
+
+open Osmium.XmlFmt Osmium.XmlFmt.XmlSpec in
+/-- the purely lexical choices are invisible to the reader; the others only through `specOpts`
+    (change file or not, explicit visible flags or not) -/
+theorem xml_choices_irrelevant (ch₁ ch₂ : Choices) (h : Header) (objs : List Object) (hh : C01Text.XHeaderDom h)
+    (hall : ∀ obj ∈ objs, C01Text.XmlInDomainAll obj) (hosc : ch₁.osc = true → ∀ obj ∈ objs, C01Text.XmlInDomain obj)
+    (h1 : ch₁.osc = ch₂.osc) (h2 : ch₁.visibleAttr = ch₂.visibleAttr) :
+    readFile tokenize {} (render ch₁ h objs) = readFile tokenize {} (render ch₂ h objs) := by
+  rw [xml_decode_spec ch₁ h objs hh hall hosc, xml_decode_spec ch₂ h objs hh hall (by rw [← h1]; exact hosc)]
+  simp [specOpts, h1, h2]
+
 open Osmium.XmlFmt in
-/-- **Attribute order of `<tag>`** is irrelevant (and unknown attributes are ignored). -/
-theorem xml_tag_attr_order_irrelevant_partial (c : Cur) (k v x : Bytes) :
+/-- **Attribute order of `<tag>`** is irrelevant, and unknown attributes are ignored (an
+    illustration; the general statement for every element is `xml_decode_spec_events`). -/
+theorem xml_tag_attr_order_irrelevant (c : Cur) (k v x : Bytes) :
     getTag c [("k", k), ("v", v)] = getTag c [("v", v), ("k", k)] ∧
     getTag c [("k", k), ("foo", x), ("v", v)] = getTag c [("k", k), ("v", v)] := by
   simp [getTag, lastAttr]
@@ -126,7 +240,7 @@ open Osmium.XmlFmt in
 /-- **Change sections**: the writer puts an object into `<delete>` iff it is not visible, and an
     object read inside `<delete>` (and only there) is not visible — for objects that carry no
     explicit `visible` attribute (the writer never writes one into a change file). -/
-theorem xml_change_section_visible_partial (m : Meta) (inDelete : Bool) :
+theorem xml_change_section_visible (m : Meta) (inDelete : Bool) :
     (opOf m = 3 ↔ m.visible = false) ∧
     initObject (.way emptyMeta []) inDelete [] = .ok (.way { emptyMeta with visible := !inDelete } []) ∧
     initObject (.node emptyMeta Location.undefined) inDelete [] =
